@@ -88,7 +88,7 @@ def run(ctx):
     attach(r4, ms, only={'main:ALRM-handled-before-the-wakeup-time-is-computed', 'main:retry-times-saved-before-exit-0'})
     mainf = prog.fn('main', 'qmail-send.c')
     pr = mainf.calls('pqrun')
-    r4.check(bool(pr) and any(c.path() == 'G:flagrunasap' and t is True for c, t in mainf.guards(pr[0]) or []), 'loop-calls-pqrun-when-flagged', mainf.unit + ':main', '')
+    r4.check(bool(pr) and any(c.path() == 'G:flagrunasap' and t is True for c, t in mainf.guards(pr[0], fresh=False) or []), 'loop-calls-pqrun-when-flagged', mainf.unit + ':main', '')
     prf = prog.fn('pqrun', 'qmail-send.c')
     asg = [x for x in prf.all_x() if x.k == 'asg' and x.op == '=' and x.args[0].src().endswith('.dt') and x.args[1].path() == 'G:recent']
     okr = False
